@@ -12,14 +12,14 @@ PROPERTY = "C06"
 LEVEL = "exploration"
 ANCHORS = ["src/pylife/materiallaws/notch_approximation_law.py",
            "src/pylife/materiallaws/notch_approximation_law_seegerbeste.py", "src/pylife/materiallaws/rambgood.py"]
-SHARDS = {"quick": 4, "thorough": 16}
+SHARDS = {"quick": 8, "thorough": 16}
 WATCHDOG = {"quick": 900, "thorough": 3000}
 REQUIRED_CLASSES = {t: ["law:neuber", "law:seegerbeste", "branch:primary", "branch:secondary", "kp=1", "kp_near_1",
-                        "load>tensile_strength", "load_elastic", "load_zero_in_array", "configured_through_setter", "tol=0.0001", "tol=1e-10", "container:float",
+                        "load>tensile_strength", "load_elastic", "load_zero_in_array", "configured_through_setter", "arrays_reused_by_the_caller", "tol=0.0001", "tol=1e-10", "container:float",
                         "container:np.float64", "container:array1", "container:arrayN", "container:series_range",
                         "container:series_multiindex", "container:series1", "material:steel", "material:cast", "material:aluminium"]
                     for t in ("quick", "thorough")}
-REQUIRED_MONITORS = ["root_within_tolerance", "between_L/Kp_and_L", "odd", "strictly_increasing", "load(stress(L))==L",
+REQUIRED_MONITORS = ["independent_of_array_identity_and_history", "root_within_tolerance", "between_L/Kp_and_L", "odd", "strictly_increasing", "load(stress(L))==L",
                      "containers_agree", "strain==ramberg_osgood(stress)"]
 RULE = ("seeded material sets from the three FKM material groups (K', n' from R_m, +-20 %), E in {70e3,206e3}*U(0.9,1.1), "
         "K_p in {1,1.001,1.1,2,3.5,5} or U(1,5), solver tolerance tol=rtol in {1e-4,1e-6,1e-8,1e-10}, a grid of 12 loads "
@@ -249,6 +249,21 @@ def run_case(case, ctx):
                 wtag = ["c06_inverse_returned_unconverged_with_warning"] if warned else []
                 ctx.check("load(stress(L))==L", gotb.shape == L.shape and bool(np.all(np.abs(gotb - L) <= lim)), observed=gotb, expected=L,
                           tags=narrow + wtag + tag, detail={"branch": branch, "container": case["container"], "convergence_warnings": warned})
+    # what the functions return depends on the values they are given, not on array identity or on earlier calls
+    from .. import alias
+    nzl = loads[loads > 0][:5]
+    if len(nzl) >= 2:
+        ctx.tag("arrays_reused_by_the_caller")
+        la, lb = nzl, nzl[::-1] * 0.8
+        with warnings.catch_warnings():
+            warnings.simplefilter("ignore")
+            t_ = 2.0 * (tol + tol * float(np.max(nzl)))
+            for nm, f_ in (("stress", law.stress), ("stress_secondary_branch", law.stress_secondary_branch), ("load", law.load),
+                           ("load_secondary_branch", law.load_secondary_branch)):
+                arg_a = [la] if nm.startswith("stress") else [np.asarray(law.stress(la.copy(), rtol=tol, tol=tol), dtype=float)]
+                arg_b = [lb] if nm.startswith("stress") else [np.asarray(law.stress(lb.copy(), rtol=tol, tol=tol), dtype=float)]
+                alias.probe(ctx, "independent_of_array_identity_and_history", lambda x, f_=f_: f_(x, rtol=tol, tol=tol), arg_a, arg_b,
+                            rtol=4 * tol, atol=2 * t_, detail={"function": nm})
     if kp * 1.5 + 0.25 >= 1.01:
         _setter_case(case, ctx, law, loads, tol)
 
